@@ -142,6 +142,10 @@ func (e *Exec) envForLoop(fr *Frame, h *ssa.BasicBlock, st *State) *Env {
 		if phi.Comment == "rangeindex" {
 			env.vars["_i"] = v
 			env.vars["_n"] = Val{T: "(+ " + v.T + " 1)", S: SInt}
+		} else if phi.Comment == "rangeint.iter" {
+			// range-over-int loops are do-while shaped: the header phi is the current index = completed iterations
+			env.vars["_i"] = v
+			env.vars["_n"] = v
 		} else if phi.Comment != "" {
 			env.vars[phi.Comment] = v
 		}
